@@ -1,19 +1,19 @@
 #!/bin/bash
-# Re-creates /tmp/wt/<id> at /repo's HEAD with the seed's patch applied (peg.peg.go regenerated when the patch touched it).
+# Re-creates ${SEEDWT:-/tmp/wt}/<id> at /repo's HEAD with the seed's patch applied (peg.peg.go regenerated when the patch touched it).
 id=$1
 export GOFLAGS=-mod=mod GOPROXY=off
-git -C /repo worktree remove --force /tmp/wt/$id 2>/dev/null
-rm -rf /tmp/wt/$id
-git -C /repo worktree add -q --detach /tmp/wt/$id HEAD || exit 1
-cd /tmp/wt/$id
-if ! git apply --3way --exclude=peg.peg.go /tmp/seeds/$id/patch.diff 2>/tmp/seeds/$id/apply.err; then
-  echo "$id: patch does not apply"; cat /tmp/seeds/$id/apply.err | head -5; exit 1
+git -C /repo worktree remove --force ${SEEDWT:-/tmp/wt}/$id 2>/dev/null
+rm -rf ${SEEDWT:-/tmp/wt}/$id
+git -C /repo worktree add -q --detach ${SEEDWT:-/tmp/wt}/$id HEAD || exit 1
+cd ${SEEDWT:-/tmp/wt}/$id
+if ! git apply --3way --exclude=peg.peg.go ${SEEDOUT:-/tmp/seeds}/$id/patch.diff 2>${SEEDOUT:-/tmp/seeds}/$id/apply.err; then
+  echo "$id: patch does not apply"; cat ${SEEDOUT:-/tmp/seeds}/$id/apply.err | head -5; exit 1
 fi
 git reset -q
-if grep -q '^diff --git a/peg.peg.go' /tmp/seeds/$id/patch.diff; then
+if grep -q '^diff --git a/peg.peg.go' ${SEEDOUT:-/tmp/seeds}/$id/patch.diff; then
   for i in 1 2 3; do go build -o /tmp/peg_rb_$id . && /tmp/peg_rb_$id -inline -switch peg.peg || { echo "$id: regeneration failed"; exit 1; }; done
   rm -f /tmp/peg_rb_$id
 fi
-git diff > /tmp/seeds/$id/patch.rebased.diff
+git diff > ${SEEDOUT:-/tmp/seeds}/$id/patch.rebased.diff
 go test -vet=off -count=1 ./set/ . 2>&1 | tail -2 | tr '\n' ' '
 echo "$id rebased: $(git status --short | tr '\n' ' ')"
